@@ -107,6 +107,10 @@ func runScenario(t *testing.T, sc scenario) []run {
 					cur.Events = append(cur.Events, event{T: now, Ask: 1, Grant: g})
 				}
 			case "resize":
+				if s.Qps == q && s.Burst == b { // nothing changes: the same bucket goes on (not a new run)
+					lim.Sync(spec(q, b, other))
+					continue
+				}
 				runs = append(runs, cur)
 				q, b = s.Qps, s.Burst
 				lim.Sync(spec(q, b, other))
